@@ -1,21 +1,48 @@
 -------------------------------- MODULE C18 ---------------------------------
 (* Judge for property C18 (interrupts and abnormal exits).  A trace line is   *)
-(*   [id, prog, follow,                                                       *)
-(*    full |-> [first, second]      P run to its end, then Q on the same      *)
-(*                                  runtime (covers uncaught exceptions)      *)
-(*    ints |-> << [k, delivered, panicked, log, depth, labels, fl] ... >> ]   *)
-(* one record per injection: the harness armed an interrupt at polling point  *)
-(* k of the implementation, the interrupt function panicked, and Q was run    *)
-(* afterwards on the same runtime.                                            *)
+(*   [id, prog, follow, limit, flimit, eval,                                  *)
+(*    fulls |-> << [route, first, second, depth, labels] ... >>               *)
+(*                                  P run to its end, then Q on the same      *)
+(*                                  runtime (covers uncaught exceptions and   *)
+(*                                  stack-limit RangeErrors); one record per  *)
+(*                                  API entry point P was started through     *)
+(*    ints |-> << [route, k, delivered, panicked, log, depth, labels, fl] >>  *)
+(*    hps  |-> << [route, k, delivered, first, depth, labels, fl] >> ]        *)
+(* ints: one record per injection: the harness armed an interrupt at polling  *)
+(* point k of the implementation, the interrupt function panicked, and Q was  *)
+(* run afterwards on the same runtime.                                        *)
+(* hps: the host function H panicked (Go string "boom") at its k-th call of   *)
+(* the run; `first` is what the script made of it (caught: the run goes on;   *)
+(* uncaught: the entry point unwinds with the panic = the observation of an   *)
+(* uncaught thrown primitive "boom"), then Q as before.                       *)
+(*                                                                           *)
+(* ENTRY POINTS.  `route` names the API entry point through which P reached   *)
+(* the idle runtime; the line carries the program that is equivalent to that  *)
+(* entry for the specification:                                               *)
+(*   Run of the source text / of a compiled Script / of a parsed Program:     *)
+(*        P as global code (10.4.1)                     eval = FALSE          *)
+(*   Eval of the text / of a Script on the runtime at rest:                   *)
+(*        P as eval code in the global context (10.4.2) eval = TRUE           *)
+(*   Otto.Call("main"), Value.Call(main), Object.Call(global, "main") after   *)
+(*   `function main(){P}` was declared:  function main(){P} main()            *)
+(*   the calls from Go around a stack depth limit (harness apiCall)           *)
+(* Routes with the same equivalent program share one line (one evaluation of  *)
+(* the abort points by the specification).                                    *)
+(*                                                                           *)
 (* The specification (ES5Core: every statement/expression evaluation is a     *)
 (* polling point; the "interrupt" completion cannot be caught and runs no     *)
 (* finally block) computes for EVERY polling point j of its own evaluation    *)
 (* the pair (host-call log at the abort, outcome of Q on the state left       *)
 (* behind).  An injection conforms iff the interrupt was delivered at the     *)
-(* armed poll, Run unwound with the panic, the runtime is at rest             *)
+(* armed poll, the entry point unwound with the panic, the runtime is at rest *)
 (* (RestAfterExit: depth = 0 extra contexts, no pending labels) and SOME j    *)
 (* explains the observation (EffectsPrefix + FollowUpNormal): the             *)
 (* implementation's polling granularity is not prescribed, its effects are.   *)
+(* A host-function panic is deterministic (the k-th call of H): the outcome   *)
+(* of the run, the rest state and the outcome of Q are all prescribed.        *)
+(* Q runs under the stack depth limit `flimit` (configured before it when P   *)
+(* ran without one) and probes the nesting the runtime admits: after any exit *)
+(* the limit admits exactly the configured nesting.                           *)
 EXTENDS Integers, Sequences, TLC, Json, FiniteSets
 CONSTANTS OpenDev, Fuel
 VARIABLES blk, i
@@ -29,28 +56,63 @@ Next == i = 0 /\ i' \in {j \in 1..Len(File) : j % K = blk - 1} /\ UNCHANGED blk
 
 Same(o, obs) == ~o.und /\ o.log = obs.log /\ o.thr = obs.thr /\ o.v = obs.v
 
-AbortPoints(ev, n) ==
-    {[log |-> r.first.log, second |-> r.second] :
-        r \in {S!RunThen(ev.prog, j, ev.follow, Fuel, ev.limit) : j \in 1..n}}
+(* The one textual path into the evaluator (TLC's start-up cost grows with every such path): *)
+(* the runs of a scenario one after the other on the same runtime.  A job is                  *)
+(* [body, eval, k, hp, limit]: interrupt at polling point k (0: none), H panics at its hp-th  *)
+(* call (0: never), stack depth limit of the runtime from this run on.                        *)
+RECURSIVE RunJobs(_, _, _)
+RunJobs(st, jobs, n) ==
+    IF n > Len(jobs) THEN <<>>
+    ELSE LET jb == jobs[n]
+             c == S!RunBody([st EXCEPT !.abortAt = jb.k, !.hpanic = jb.hp, !.limit = jb.limit, !.log = <<>>, !.fuel = Fuel],
+                            jb.body, S!GlobalCx, jb.eval)
+             st1 == [c.st EXCEPT !.abortAt = 0, !.hpanic = 0]
+         IN  <<[out |-> S!Outcome(c), polls |-> c.st.poll]>> \o RunJobs(st1, jobs, n + 1)
+
+(* run P through its entry point with the abnormal exit armed, then Q *)
+RunThen(ev, k, hp) ==
+    LET rs == RunJobs(S!State0(Fuel), <<[body |-> ev.prog, eval |-> ev.eval, k |-> k, hp |-> hp, limit |-> ev.limit],
+                                        [body |-> ev.follow, eval |-> FALSE, k |-> 0, hp |-> 0, limit |-> ev.flimit]>>, 1)
+    IN  [first |-> rs[1].out, polls |-> rs[1].polls, second |-> rs[2].out]
+
+Rest(x) == x.depth = 0 /\ x.labels = 0                                 \* RestAfterExit
 
 Explained(x, pts) ==
     /\ x.delivered /\ x.panicked
-    /\ x.depth = 0 /\ x.labels = 0                                     \* RestAfterExit
+    /\ Rest(x)
     /\ \E p \in pts : p.log = x.log /\ (p.second.und \/ Same(p.second, x.fl))   \* EffectsPrefix, FollowUpNormal
+
+FullOK(f, base) == Same(base.first, f.first) /\ Same(base.second, f.second) /\ Rest(f)
+
+HpOK(x, r) ==
+    \/ r.first.und
+    \/ /\ x.delivered
+       /\ Same(r.first, x.first)
+       /\ Rest(x)
+       /\ (r.second.und \/ Same(r.second, x.fl))
 
 Check ==
     i = 0 \/
     LET ev == File[i]
-        base == S!RunThen(ev.prog, 0, ev.follow, Fuel, ev.limit)
+        \* arm <<0, 0>>: the uninterrupted run; <<j, 0>>: interrupt at the specification's polling point j;
+        \* <<0, h>>: H panics at its h-th call
+        R[a \in (0..100000) \X (0..100000)] == RunThen(ev, a[1], a[2])
+        base == R[<<0, 0>>]
     IN  IF base.first.und \/ base.second.und THEN PrintT("VJSON " \o ToJson([id |-> ev.id, status |-> "und"]))
-        ELSE IF ~Same(base.first, ev.full.first) \/ ~Same(base.second, ev.full.second)
-             THEN PrintT("VJSON " \o ToJson([id |-> ev.id, status |-> "badfull", want |-> base]))
+        ELSE LET badf == {n \in 1..Len(ev.fulls) : ~FullOK(ev.fulls[n], base)}
+             IN
+             IF badf # {}
+             THEN PrintT("VJSON " \o ToJson([id |-> ev.id, status |-> "badfull", n |-> CHOOSE n \in badf : \A m \in badf : n <= m, want |-> base]))
         ELSE LET \* the implementation may poll once more after the last effect of a run that completes
                  \* normally (e.g. at an empty finally block): nothing is left to abort, all effects stand
-                 pts == AbortPoints(ev, base.polls)
+                 pts == {[log |-> r.first.log, second |-> r.second] : r \in {R[<<j, 0>>] : j \in 1..base.polls}}
                         \cup (IF base.first.thr = <<>> THEN {[log |-> base.first.log, second |-> base.second]} ELSE {})
                  bad == {n \in 1..Len(ev.ints) : ~Explained(ev.ints[n], pts)}
-             IN  bad = {} \/ PrintT("VJSON " \o ToJson([id |-> ev.id, status |-> "badint",
-                                        k |-> ev.ints[CHOOSE n \in bad : \A m \in bad : n <= m].k,
+                 badh == {n \in 1..Len(ev.hps) : ~HpOK(ev.hps[n], R[<<0, ev.hps[n].k>>])}
+             IN  /\ bad = {} \/ PrintT("VJSON " \o ToJson([id |-> ev.id, status |-> "badint",
+                                        n |-> CHOOSE n \in bad : \A m \in bad : n <= m,
                                         polls |-> base.polls, nbad |-> Cardinality(bad)]))
+                 /\ badh = {} \/ LET n == CHOOSE n \in badh : \A m \in badh : n <= m
+                                 IN  PrintT("VJSON " \o ToJson([id |-> ev.id, status |-> "badhp", n |-> n, nbad |-> Cardinality(badh),
+                                                                want |-> R[<<0, ev.hps[n].k>>]]))
 =============================================================================
